@@ -137,7 +137,7 @@ static bool step(U& s, const OpVal& ov, uint32_t L, const std::string& init, std
   R.outcome(hash64(ol.href) ^ mix64(L * 31 + ov.op));
   std::string cls = std::string(op_name(ov.op)) + ":" + tn;
   // narrow sub-class: set_host("host:port") whose port part alone was refused by the limit while the
-  // host part was applied (known finding C09-set-host-port-partial); anything else keeps the plain class
+  // host part was applied (defect C09-set-host-port-partial, fixed in 29ce91b; the class stays so that a regression is named); anything else keeps the plain class
   if (ov.op == SET_HOST && ov.val.find(':') != std::string::npos && rl && ol.ok && oinf.ok && !oinf.port.empty() && ol.port == before.port &&
       ol.hostname == oinf.hostname && ol.href.size() <= L && oinf.href.size() > L)
     cls += ":host-applied-port-dropped";
